@@ -785,7 +785,15 @@ impl<'a> Gen<'a> {
             39 => format!("{{{}{}", self.body(2), if self.rng.chance(1, 10) { "" } else { "}" }),
             40 => self.call(),
             41 => self.any_cs(),
-            42 => (*self.rng.pick(&["}", "{", "\\fi ", "\\else ", "\\or "])).to_string(),
+            42 => match self.rng.below(4) {
+                0 => format!(
+                    "\\catcode`{}={} ",
+                    *self.rng.pick(&["a", "\\{", "\\}", "\\\\", "\\ ", "\\%", "\\#", "\\^", "1", "=", "\u{e9}", "\\^^M", "-", "`", "\\~", "x"]),
+                    self.rng.below(16)
+                ),
+                1 => format!("\\endlinechar={} ", *self.rng.pick(&["-1", "13", "65", "233", "0", "127", "32", "37", "92", "123", "125", "35", "128", "94"])),
+                _ => (*self.rng.pick(&["}", "{", "\\fi ", "\\else ", "\\or "])).to_string(),
+            },
             _ => self.text(),
         }
     }
@@ -887,6 +895,34 @@ impl C09 {
                         let plain = strip_ansi(text);
                         if !(plain.contains(">>> ") && plain.contains("Error: ")) {
                             o.fail(Kind::ImplVsSpec, "render", "error without location", format!("rendered error has no location line: {plain}"));
+                        }
+                    }
+                }
+                // end-of-input location vs the Lean model of `trace_end_of_input` (only when the
+                // last external input is the program itself: no terminal reads)
+                if kind == "eof" && !src.contains("read") && src.len() < 600 {
+                    if let Some(((line, index, _), line_number)) = &primary {
+                        let rep = drv.ask(&format!("eoi | {}", join(&src.chars().map(|c| c as u32).collect::<Vec<_>>())));
+                        o.tag("eoi:compared");
+                        let mut it = rep.split(' ');
+                        let (v, ln, pos) = (it.next().unwrap_or(""), it.next().unwrap_or(""), it.next().unwrap_or(""));
+                        let want_line: String = it.filter_map(|w| w.parse::<u32>().ok()).filter_map(char::from_u32).collect();
+                        if v != "ok" || ln != line_number.to_string() || want_line != *line {
+                            o.fail(
+                                Kind::ImplVsModel,
+                                "eoi",
+                                "end of input: line differs",
+                                format!("{src:?}: real line {line_number} {line:?}, model {rep}"),
+                            );
+                        } else if pos != index.to_string() {
+                            // S (computed by Lean): the position is the number of characters of the line
+                            o.tag("eoi:position-in-bytes");
+                            o.fail(
+                                Kind::ImplVsSpec,
+                                "eoi",
+                                "end-of-input position counts bytes",
+                                format!("{src:?}: the input ends after character {pos} of line {line:?}, reported index {index}"),
+                            );
                         }
                     }
                 }
@@ -1224,6 +1260,9 @@ impl Property for C09 {
             let n = r.below(13);
             let p: String = (0..n).map(|_| *r.pick(&alphabet)).collect();
             out.push(format!("loc {}", enc(&p)));
+            // the same text inside an unfinished definition: an end-of-input error whose
+            // location is compared with the Lean `traceEoi`
+            out.push(format!("run e {}", enc(&format!("\\def\\a{{{p}"))));
         }
         for big_n in [16i64, 256, 32768] {
             for n in [-2147483648i64, -1, 0, 1, big_n - 1, big_n, big_n + 1, 2147483647] {
@@ -1295,6 +1334,9 @@ impl Property for C09 {
             }
         }
         out.push("deep 200000".into());
+        out.push("deep 200000 expandafter".into());
+        out.push("deep 200000 group".into());
+        out.push("deep 20000 ifnum".into());
         out
     }
 
@@ -1419,11 +1461,14 @@ impl C09 {
                 self.loc_stream(&prefix, drv, &mut o);
             }
             "deep" => {
-                let n: usize = rest.trim().parse().unwrap_or(1000);
+                let mut ws = rest.split_ascii_whitespace();
+                let n: usize = ws.next().and_then(|w| w.parse().ok()).unwrap_or(1000);
+                let what = ws.next().unwrap_or("empty");
                 o.nontrivial = true;
+                o.tag(format!("deep:{what}"));
                 let exe = std::env::current_exe().unwrap();
                 let st = std::process::Command::new(exe)
-                    .args(["--replay-case", &format!("deepchild {n}"), "--driver", &self.driver_path])
+                    .args(["--replay-case", &format!("deepchild {n} {what}"), "--driver", &self.driver_path])
                     .stdout(std::process::Stdio::null())
                     .stderr(std::process::Stdio::null())
                     .status();
@@ -1431,14 +1476,21 @@ impl C09 {
                     Ok(s) if s.code() == Some(0) => o.tag("deep:ok"),
                     Ok(s) => {
                         o.tag("deep:killed");
-                        o.fail(Kind::ImplPanic, "deep", "stack overflow in next_expanded", format!("{n} consecutive empty macro expansions on the default main-thread stack: child ended with {s:?} (stack overflow aborts the process)"));
+                        let sig = if what == "empty" { "stack overflow in next_expanded".to_string() } else { format!("stack overflow: nested {what}") };
+                        o.fail(Kind::ImplPanic, "deep", sig, format!("{n} x {what} (consecutive empty macro expansions / nested constructs) on the default 8 MiB main-thread stack: child ended with {s:?} (a stack overflow aborts the process)"));
                     }
                     Err(e) => o.fail(Kind::ModelVsSpec, "deep", "cannot spawn child", e.to_string()),
                 }
             }
             "deepchild" => {
-                let n: usize = rest.trim().parse().unwrap_or(1000);
-                let src = format!("\\def\\a{{}}{} done", "\\a".repeat(n));
+                let mut ws = rest.split_ascii_whitespace();
+                let n: usize = ws.next().and_then(|w| w.parse().ok()).unwrap_or(1000);
+                let src = match ws.next().unwrap_or("empty") {
+                    "expandafter" => format!("{}\\relax\\relax done", "\\expandafter".repeat(n)),
+                    "ifnum" => format!("{}1<2 a\\fi done", "\\ifnum".repeat(n)),
+                    "group" => format!("{}x{} done", "{".repeat(n), "}".repeat(n)),
+                    _ => format!("\\def\\a{{}}{} done", "\\a".repeat(n)),
+                };
                 match run_program(&src, false, u64::MAX / 2) {
                     Outcome::Ok(..) => {}
                     Outcome::Panic(m) => o.fail(Kind::ImplPanic, "deep", "deep: not ok", format!("child run panicked: {m}")),
